@@ -324,7 +324,7 @@ EvalCalledLambda(t, env) ==     \* t = call whose func is a lam term
 (* i.e. the called lambda (lambda params: body)(args).  The table is rendered to real `def`s  *)
 (* and lambdas by the harness (harness/props_helpers.py HELPER_SOURCE must match).            *)
 LamD(ps, nd, body, defs) == T("lam", "", nd, ps, <<body>> \o defs)
-HelperNames == {"h_id", "h_inc", "h_sub", "h_lam", "h_nest", "h_nest2", "h_two", "h_cap", "h_kw"}
+HelperNames == {"h_id", "h_inc", "h_sub", "h_lam", "h_nest", "h_nest2", "h_two", "h_cap", "h_kw", "h_d3"}
 HelperLam(f) ==
     CASE f = "h_id"   -> Lam(<<"a">>, Name("a"))
       [] f = "h_inc"  -> Lam(<<"a">>, BinOp("+", Name("a"), IntC(1)))
@@ -339,6 +339,9 @@ HelperLam(f) ==
       [] f = "h_cap"  -> Lam(<<"a">>, Fn("Sum", <<Fn("Select", <<Attr(Name("a"), "trks"),
                                                      Lam(<<"t">>, BinOp("+", Attr(Name("t"), "pt"),
                                                                          Attr(Name("a"), "pt")))>>)>>))
+      [] f = "h_d3"   -> LamD(<<"x", "y", "z">>, 2,
+                              BinOp("+", BinOp("*", Name("x"), IntC(100)), BinOp("+", BinOp("*", Name("y"), IntC(10)), Name("z"))),
+                              <<IntC(2), IntC(7)>>)
       [] OTHER        -> LamD(<<"x", "y">>, 1, BinOp("-", BinOp("*", Name("x"), IntC(3)), Name("y")), <<IntC(2)>>)
 
 EvalFunc(t, env) ==      \* t = call whose func is a name
